@@ -565,9 +565,11 @@ def synth (env : Env) (ctx : Ctx) (g : Gamma) : Expr → R TD
     match t with
     | .unknown | .never =>
       -- nothing is known about the examinee: only the arms themselves are checked
-      let (ts, _) ← synthArms env ctx g none arms
+      -- (whichever arm runs, the match diverges if all of them do: claiming LESS
+      -- divergence here made `D` reject well-typed scripts)
+      let (ts, da) ← synthArms env ctx g none arms
       let tr ← foldCompat "branches" ts .unknown
-      pure (tr, d)
+      pure (tr, d || (!arms.isEmpty && da))
     | t =>
       match variantsOf env t with
       | none => fail "match-needs-enum"
